@@ -131,10 +131,6 @@ Section Proofs.
       + eapply committed_err; eauto. congruence.
   Qed.
 
-  (* Shift exactly after a success or a nonce-too-low, Pop otherwise *)
-  Definition op_of (err : option apply_err) : op :=
-    match err with None | Some ENonceTooLow => OShift | Some _ => OPop end.
-
   (* what one iteration that consumed a head did *)
   Record stepped (env : benv) (plain blob : state) (a : attempt) (env' : benv) (plain' blob' : state) : Prop := {
     st_sel : select plain (maybe_clear env blob) = (at_blob a, Some (at_item a));
@@ -142,7 +138,7 @@ Section Proofs.
     st_env : (env' = env /\ at_op a = OPop /\
               (at_why a = WGas \/ at_why a = WBlobSpace \/ at_why a = WEvicted \/ at_why a = WReplay)) \/
              (exists err reached,
-                 committed env (it_tx (at_item a)) env' err reached /\
+                 commit_transaction env (it_tx (at_item a)) = Ok (env', err, reached) /\
                  at_op a = op_of err /\
                  at_why a = (if reached then WApplied err else WBlobCap) /\
                  Z.of_N (m_gas (meta (it_tx (at_item a)))) <= snd (GasPool_Gas (e_pool env)) /\
@@ -171,7 +167,6 @@ Section Proofs.
     { destruct (advance isb OPop plain (maybe_clear env blob)) as [[p' b']| |] eqn:Ea; cbn [bind] in E; try discriminate.
       injection E as <- <- <- <-. constructor; cbn; auto 8. }
     destruct (commit_transaction env (it_tx it)) as [[[env1 err] reached]| |] eqn:Ec; cbn [bind] in E; try discriminate.
-    apply commit_transaction_spec in Ec.
     assert (E' : (do (p', b') <- advance isb (op_of err) plain (maybe_clear env blob);
                   Ok (BStep S Rc (mkAtt isb it (op_of err) (if reached then WApplied err else WBlobCap)) env1 p' b'))
                  = Ok (BStep S Rc a env' plain' blob')).
@@ -220,7 +215,8 @@ Section Proofs.
     - destruct (commit_loop f (tl sigs) env1 plain1 blob1) as [[[[[env2 p2] b2] tr2] st2]| |] eqn:El; cbn [bind] in E; try discriminate.
       injection E as <- _ _ _ _.
       assert (H1 : P env1).
-      { apply body_step in Eb. destruct (st_env _ _ _ _ _ _ _ Eb) as [(-> & _)|(err & reached & Hc & _)]; eauto. }
+      { apply body_step in Eb. destruct (st_env _ _ _ _ _ _ _ Eb) as [(-> & _)|(err & reached & Hc & _)]; eauto.
+        apply commit_transaction_spec in Hc. eauto. }
       exact (IH _ _ _ _ _ _ _ _ _ H1 El).
   Qed.
 
@@ -1000,6 +996,175 @@ Section Order.
   Qed.
 End Order.
 
+(* ------------------------------------------------------------------------- *)
+(* 8. the history of the loop: environments before each attempt; what is included is
+      exactly the successful attempts; Shift / Pop follow the outcome                 *)
+
+Lemma included_cons a tr :
+  included (a :: tr) = if is_included a then it_tx (at_item a) :: included tr else included tr.
+Proof.
+  unfold included, is_included. cbn [filter].
+  destruct (at_why a) as [| | | | |[e|]]; reflexivity.
+Qed.
+
+Lemma included_app t1 t2 : included (t1 ++ t2) = included t1 ++ included t2.
+Proof. unfold included. now rewrite filter_app, map_app. Qed.
+
+Section Trace.
+  Variables S Rc : Type.
+  Variable meta : tx -> txmeta.
+  Variable pre_check : S -> tx -> pre_res.
+  Variable exec : S -> tx -> exec_res S Rc.
+  Variable cfg : bconfig.
+
+  Notation benv := (benv S Rc).
+  Notation commit_transaction := (commit_transaction S Rc meta pre_check exec cfg).
+  Notation commit_loop := (commit_loop S Rc meta pre_check exec cfg).
+  Notation step_env := (step_env S Rc meta pre_check exec cfg).
+  Notation chain := (chain S Rc meta pre_check exec cfg).
+  Notation committed := (committed S Rc meta pre_check exec cfg).
+
+  Lemma loop_hist : forall fuel sigs env plain blob env' p' b' tr st,
+    commit_loop fuel sigs env plain blob = Ok (env', p', b', tr, st) ->
+    exists h, map snd h = tr /\ chain env h env'.
+  Proof.
+    induction fuel as [|f IH]; intros sigs env plain blob env' p' b' tr st E; [discriminate|].
+    cbn [Build.commit_loop] in E.
+    destruct (loop_body S Rc meta pre_check exec cfg _ env plain blob) as [[st0 blob0|a env1 plain1 blob1]| |] eqn:Eb;
+      cbn [bind] in E; try discriminate.
+    - injection E as <- _ _ <- _. exists []. split; reflexivity.
+    - destruct (commit_loop f (tl sigs) env1 plain1 blob1) as [[[[[env2 p2] b2] tr2] st2]| |] eqn:El;
+        cbn [bind] in E; try discriminate.
+      injection E as <- _ _ <- _.
+      destruct (IH _ _ _ _ _ _ _ _ _ El) as (h & Hm & Hc).
+      exists ((env, a) :: h). split; [cbn; now rewrite Hm|].
+      cbn [Build.chain]. split; [reflexivity|]. exists env1. split; [|exact Hc].
+      apply (body_step S Rc meta pre_check exec cfg) in Eb.
+      destruct (st_env _ _ _ _ _ _ _ _ _ _ _ _ _ Eb) as [H0|(err & reached & Hct & Hop & Hw & _)].
+      + left. exact H0.
+      + right. exists err, reached. auto.
+  Qed.
+
+  Lemma chain_app h1 : forall e h2 e1 e2, chain e h1 e1 -> chain e1 h2 e2 -> chain e (h1 ++ h2) e2.
+  Proof.
+    induction h1 as [|[e0 a] h1 IH]; intros e h2 e1 e2 H1 H2; cbn in *.
+    - subst. exact H2.
+    - destruct H1 as (-> & ex & Hs & Hc). split; [reflexivity|]. exists ex. split; [exact Hs|]. eapply IH; eauto.
+  Qed.
+
+  (* an invariant of commit_transaction holds before every attempt and at the end *)
+  Lemma chain_inv (P : benv -> Prop) :
+    (forall e t e1 err reached, P e -> commit_transaction e t = Ok (e1, err, reached) -> P e1) ->
+    forall h e e', chain e h e' -> P e -> P e' /\ Forall (fun ea => P (fst ea)) h.
+  Proof.
+    intros HP. induction h as [|[e0 a] h IH]; intros e e' Hc He; cbn in Hc.
+    - subst. auto.
+    - destruct Hc as (-> & e1 & Hs & Hc).
+      assert (H1 : P e1).
+      { destruct Hs as [(-> & _)|(err & reached & Hct & _)]; eauto. }
+      destruct (IH _ _ Hc H1) as (He' & Hf). split; [exact He'|]. constructor; auto.
+  Qed.
+
+  Lemma committed_txs e t e1 err reached :
+    committed e t e1 err reached ->
+    e_txs e1 = e_txs e ++ (match err with None => [t] | Some _ => [] end) /\
+    (reached = false -> err = Some EOther).
+  Proof.
+    intros Hc. destruct Hc as [nb _ _ _|ex er Ha _|ex rc _ Ha|ex rc nb _ _ _ Ha].
+    - rewrite app_nil_r. auto.
+    - inversion Ha; subst. cbn. rewrite app_nil_r. split; [reflexivity|discriminate].
+    - inversion Ha; subst. cbn. split; [reflexivity|discriminate].
+    - inversion Ha; subst. cbn. split; [reflexivity|discriminate].
+  Qed.
+
+  (* one attempt: what it adds to the block, and Shift / Pop against its outcome *)
+  Lemma step_env_spec e a e1 :
+    step_env e a e1 ->
+    e_txs e1 = e_txs e ++ (if is_included a then [it_tx (at_item a)] else []) /\
+    (at_op a = OShift <-> at_why a = WApplied None \/ at_why a = WApplied (Some ENonceTooLow)).
+  Proof.
+    intros [(-> & Hop & Hw)|(err & reached & Hct & Hop & Hw)].
+    - split.
+      + unfold is_included. destruct Hw as [-> |[-> |[-> | ->]]]; now rewrite app_nil_r.
+      + rewrite Hop. split; [discriminate|]. intros [H0|H0]; destruct Hw as [Hw|[Hw|[Hw|Hw]]]; congruence.
+    - apply (commit_transaction_spec S Rc meta pre_check exec cfg) in Hct.
+      destruct (committed_txs _ _ _ _ _ Hct) as (Ht & Hr). rewrite Ht, Hop. unfold is_included. rewrite Hw.
+      destruct reached.
+      + split; [destruct err; reflexivity|].
+        destruct err as [[]|]; cbn; split; intros H0; try discriminate; auto;
+          destruct H0 as [H0|H0]; discriminate.
+      + rewrite (Hr eq_refl). cbn. split; [reflexivity|]. split; [discriminate|]. intros [H0|H0]; discriminate.
+  Qed.
+
+  Lemma chain_included h : forall e e', chain e h e' ->
+    e_txs e' = e_txs e ++ included (map snd h) /\
+    Forall (fun a => at_op a = OShift <-> at_why a = WApplied None \/ at_why a = WApplied (Some ENonceTooLow)) (map snd h).
+  Proof.
+    induction h as [|[e0 a] h IH]; intros e e' Hc; cbn in Hc.
+    - subst. cbn. rewrite app_nil_r. auto.
+    - destruct Hc as (-> & e1 & Hs & Hc). destruct (step_env_spec _ _ _ Hs) as (Ht & Hop).
+      destruct (IH _ _ Hc) as (Ht' & Hf). cbn [map snd]. rewrite included_cons. split.
+      + rewrite Ht', Ht, <- app_assoc. destruct (is_included a); reflexivity.
+      + constructor; assumption.
+  Qed.
+End Trace.
+
+(* ------------------------------------------------------------------------- *)
+(* 9. per sender: included transactions against the sender's pending list        *)
+
+Lemma filter_split {A} (p : A -> bool) : forall l pre x post,
+  filter p l = pre ++ x :: post ->
+  exists l1 l2, l = l1 ++ x :: l2 /\ filter p l1 = pre /\ filter p l2 = post /\ p x = true.
+Proof.
+  induction l as [|y l IH]; intros pre x post E; cbn in E.
+  - destruct pre; discriminate.
+  - destruct (p y) eqn:Ey.
+    + destruct pre as [|z pre]; cbn in E.
+      * injection E as <- <-. exists [], l. cbn. auto.
+      * injection E as <- E. destruct (IH _ _ _ E) as (l1 & l2 & -> & H1 & H2 & H3).
+        exists (y :: l1), l2. cbn. rewrite Ey, H1. auto.
+    + destruct (IH _ _ _ E) as (l1 & l2 & -> & H1 & H2 & H3).
+      exists (y :: l1), l2. cbn. rewrite Ey. auto.
+Qed.
+
+(* if every element but possibly the last satisfies p, filtering drops at most the last *)
+Lemma filter_all_but_last {A} (p : A -> bool) (l : list A) :
+  (forall pre x post, l = pre ++ x :: post -> post <> [] -> p x = true) ->
+  filter p l = l \/ exists x, l = filter p l ++ [x].
+Proof.
+  induction l as [|y l IHl] using rev_ind; [left; reflexivity|]. intros H.
+  assert (Hall : filter p l = l).
+  { clear IHl. assert (Hf : Forall (fun z => p z = true) l).
+    { apply Forall_forall. intros z Hz. apply in_split in Hz as (l1 & l2 & ->).
+      apply (H l1 z (l2 ++ [y])); [now rewrite <- app_assoc|]. destruct l2; discriminate. }
+    clear H. induction Hf as [|z l Hz _ IH]; cbn; [reflexivity|]. now rewrite Hz, IH. }
+  rewrite filter_app, Hall. cbn. destruct (p y); [left; reflexivity|right]. exists y. now rewrite app_nil_r.
+Qed.
+
+Lemma afford_prefix_firstn bf l : exists m, afford_prefix bf l = firstn m l.
+Proof.
+  induction l as [|t l (m & IH)]; [exists 0%nat; reflexivity|]. cbn.
+  destruct (affordable bf t); [exists (Datatypes.S m); cbn; now rewrite IH|exists 0%nat; reflexivity].
+Qed.
+
+Lemma prefix_firstn {A} (l p s : list A) m : firstn m l = p ++ s -> p = firstn (length p) l.
+Proof.
+  revert l m. induction p as [|x p IH]; intros l m E; [reflexivity|].
+  destruct m, l as [|y l]; cbn in E; try discriminate. injection E as <- E. cbn. f_equal. eapply IH; eauto.
+Qed.
+
+Lemma in_firstn' {A} (x : A) : forall k l, In x (firstn k l) -> In x l.
+Proof. induction k as [|k IH]; destruct l; cbn; try tauto. intros [H|H]; auto. Qed.
+
+Lemma sorted_firstn {A} (f : A -> N) l k :
+  StronglySorted N.lt (map f l) -> StronglySorted N.lt (map f (firstn k l)).
+Proof.
+  revert k. induction l as [|x l IH]; intros k H; destruct k; cbn; try constructor.
+  - apply IH. now inversion H.
+  - inversion H as [|? ? _ Hf]; subst. rewrite Forall_forall in *. intros z Hz. apply Hf.
+    apply in_map_iff in Hz as (w & <- & Hw). apply in_map. eapply in_firstn'; eauto.
+Qed.
+
 (* Prague rules from genesis; the parent (time 9000) carried 7 blobs: one above the target *)
 Definition ex_ccfg : FeesImpl.chain_config :=
   FeesImpl.Build_chain_config (Some 0%Z) (Some 0%Z) (Some 0%Z) None None None None None None
@@ -1012,3 +1177,328 @@ Definition ex_run :=
   generate_work (list N) N (list N) N ex_meta ex_pre ex_exec ex_cfg
     (fun s => s) (fun s rs => Some (s, 0%N)) (fun s => s) (fun s => s) (fun s => s)
     (fun rs => rs) (fun rs => rs) (fun q => [q]) ex_ccfg ex_parent true 9012%Z [] [] [] [] 600 ex_pend [].
+
+Lemma proj_trace_of isb a tr :
+  proj a (trace_of isb tr) = map (fun x => it_tx (at_item x)) (attempts_of isb a tr).
+Proof.
+  unfold proj, trace_of, attempts_of. induction tr as [|x tr IH]; [reflexivity|]. cbn [filter].
+  destruct (Bool.eqb (at_blob x) isb); cbn [andb map filter fst]; [|exact IH].
+  destruct (it_from (at_item x) =? a)%N; cbn [map fst]; now rewrite IH.
+Qed.
+
+Lemma trace_of_app isb t1 t2 : trace_of isb (t1 ++ t2) = trace_of isb t1 ++ trace_of isb t2.
+Proof. unfold trace_of. now rewrite filter_app, map_app. Qed.
+
+Lemma sorted_map_filter {A} (f : A -> N) (p : A -> bool) l :
+  StronglySorted N.lt (map f l) -> StronglySorted N.lt (map f (filter p l)).
+Proof.
+  induction l as [|x l IH]; intros H; cbn; [constructor|]. inversion H as [|? ? Hs Hf]; subst.
+  destruct (p x); [|now apply IH]. cbn. constructor; [now apply IH|].
+  rewrite Forall_forall in *. intros z Hz. apply Hf. apply in_map_iff in Hz as (w & <- & Hw).
+  apply in_map. now apply filter_In in Hw.
+Qed.
+
+Lemma nth_error_firstn_some {A} (t : A) : forall i j l,
+  nth_error (firstn j l) i = Some t -> nth_error l i = Some t.
+Proof. induction i as [|i IH]; intros j l; destruct j, l; cbn; try discriminate; auto. apply IH. Qed.
+
+Section OrderFull.
+  Variables S Rc : Type.
+  Variable meta : tx -> txmeta.
+  Variable pre_check : S -> tx -> pre_res.
+  Variable exec : S -> tx -> exec_res S Rc.
+  Variable cfg : bconfig.
+
+  (* included_order_valid.  One commitTransactions call over iterators built from the pending
+     maps [pp] (plain) and [pb] (blob):
+     - the transactions the call adds to the block are exactly the successful attempts, in
+       attempt order;
+     - Shift is chosen exactly after a success or a nonce-too-low;
+     - per iterator and sender, the attempted transactions are a PREFIX of the sender's pending
+       list, in list order, and every attempt but the last one is followed by a Shift;
+     - hence, when none of the sender's attempts was refused as nonce-too-low (the pool's view
+       of the account nonce is current), the sender's included transactions are a prefix of its
+       pending list too (all attempts, or all but the last): no gap, no reordering - with the
+       pool's consecutive nonces n0, n0+1, ... exactly the nonces n0 .. n0+j-1;
+     - in general (nonce-too-low attempts skipped) they are a sub-list of that prefix, so
+       strictly increasing nonces in the pending list give strictly increasing included nonces. *)
+  Theorem included_order_valid_full bf sigs env pp pb plain blob env' p' b' tr st :
+    NoDup (map fst pp) -> NoDup (map fst pb) ->
+    new_by_price_and_nonce pp bf = Ok plain -> new_by_price_and_nonce pb bf = Ok blob ->
+    commit_transactions S Rc meta pre_check exec cfg sigs env plain blob = Ok (env', p', b', tr, st) ->
+    e_txs env' = e_txs env ++ included tr /\
+    (forall x, In x tr ->
+       (at_op x = OShift <-> at_why x = WApplied None \/ at_why x = WApplied (Some ENonceTooLow))) /\
+    forall (isb : bool) a,
+      let l := txs_of a (if isb then pb else pp) in
+      let att := attempts_of isb a tr in
+      map (fun x => it_tx (at_item x)) att = firstn (length att) l /\
+      (forall pre x post, att = pre ++ x :: post -> post <> [] -> at_op x = OShift) /\
+      ((forall x, In x att -> at_why x <> WApplied (Some ENonceTooLow)) ->
+       exists j, included_of isb a tr = firstn j l /\ (j = length att \/ Datatypes.S j = length att)) /\
+      (forall n0, (forall i t, nth_error l i = Some t -> tx_nonce t = n0 + N.of_nat i)%N ->
+         (forall x, In x att -> at_why x <> WApplied (Some ENonceTooLow)) ->
+         forall i t, nth_error (included_of isb a tr) i = Some t -> tx_nonce t = (n0 + N.of_nat i)%N) /\
+      (StronglySorted N.lt (map tx_nonce l) ->
+       StronglySorted N.lt (map tx_nonce (included_of isb a tr))).
+  Proof.
+    intros NDp NDb Ep Eb E. unfold commit_transactions in E.
+    destruct (loop_hist S Rc meta pre_check exec cfg _ _ _ _ _ _ _ _ _ _ E) as (h & Hm & Hc).
+    destruct (chain_included S Rc meta pre_check exec cfg _ _ _ Hc) as (Htx & Hops). rewrite Hm in Htx, Hops.
+    split; [exact Htx|]. split; [now apply Forall_forall|].
+    intros isb a l att.
+    destruct (loop_run S Rc meta pre_check exec cfg _ _ _ _ _ _ _ _ _ _ E) as ((pe & Hrp) & (be & Hrb)).
+    set (pend := if isb then pb else pp) in *.
+    assert (Hrun : exists st0 ND se, new_by_price_and_nonce pend bf = Ok st0 /\
+                     NoDup (map fst pend) = ND /\
+                     run st0 (map snd (trace_of isb tr)) = Ok (trace_of isb tr, se)).
+    { destruct isb; [exists blob|exists plain]; eauto. }
+    destruct Hrun as (st0 & _ & se & Enew & _ & Hrun).
+    assert (ND : NoDup (map fst pend)) by (unfold pend; destruct isb; assumption).
+    (* attempts = prefix of the pending list *)
+    assert (Hpre : map (fun x => it_tx (at_item x)) att = firstn (length att) l).
+    { destruct (per_account_prefix pend bf st0 ND Enew _ _ _ Hrun a) as (s & Hs).
+      destruct (afford_prefix_firstn bf (txs_of a pend)) as (m & Hmm). rewrite Hmm in Hs.
+      rewrite proj_trace_of in Hs. apply prefix_firstn in Hs. fold att in Hs. rewrite map_length in Hs. exact Hs. }
+    (* every attempt but the last is followed by a Shift *)
+    assert (Hshift : forall pre x post, att = pre ++ x :: post -> post <> [] -> at_op x = OShift).
+    { intros pre x post Eatt Hne. destruct (at_op x) eqn:Eo; [reflexivity|exfalso].
+      unfold att, attempts_of in Eatt. apply filter_split in Eatt as (t1 & t2 & Etr & _ & H2 & Hpx).
+      apply andb_prop in Hpx as (Hb & Hf). apply Bool.eqb_prop in Hb. apply N.eqb_eq in Hf.
+      assert (Et : trace_of isb tr = trace_of isb t1 ++ (at_item x, OPop) :: trace_of isb t2).
+      { rewrite Etr, trace_of_app. f_equal. unfold trace_of at 1. cbn [filter]. rewrite Hb, Bool.eqb_reflx.
+        cbn [map]. now rewrite Eo. }
+      pose proof (pop_drops_account pend bf st0 ND Enew _ _ _ Hrun _ _ _ Et) as Hd.
+      rewrite Hf, proj_trace_of in Hd. fold (attempts_of isb a t2) in H2. rewrite H2 in Hd.
+      destruct post; [congruence|discriminate]. }
+    split; [exact Hpre|]. split; [exact Hshift|].
+    assert (Hincl : (forall x, In x att -> at_why x <> WApplied (Some ENonceTooLow)) ->
+              exists j, included_of isb a tr = firstn j l /\ (j = length att \/ Datatypes.S j = length att)).
+    { intros Hnl.
+      assert (Hp : forall pre x post, att = pre ++ x :: post -> post <> [] -> is_included x = true).
+      { intros pre x post Eatt Hne. pose proof (Hshift _ _ _ Eatt Hne) as Ho.
+        assert (Hin : In x att) by (rewrite Eatt; apply in_or_app; right; now left).
+        assert (Hintr : In x tr) by (unfold att, attempts_of in Hin; now apply filter_In in Hin).
+        rewrite Forall_forall in Hops. apply (Hops _ Hintr) in Ho. unfold is_included.
+        destruct Ho as [-> | Ho]; [reflexivity|]. now apply Hnl in Ho. }
+      unfold included_of. fold att.
+      destruct (filter_all_but_last is_included att Hp) as [Hall|(x & Hx)].
+      - rewrite Hall. exists (length att). auto.
+      - exists (length (filter is_included att)). split.
+        + rewrite Hx in Hpre at 1. rewrite map_app in Hpre. symmetry in Hpre.
+          apply prefix_firstn in Hpre. now rewrite map_length in Hpre.
+        + right. rewrite Hx at 2. rewrite app_length. cbn. lia. }
+    split; [exact Hincl|]. split.
+    - intros n0 Hn Hnl i t Hi. destruct (Hincl Hnl) as (j & Ej & _). rewrite Ej in Hi.
+      apply Hn. eapply nth_error_firstn_some; eauto.
+    - intros Hs. unfold included_of. fold att.
+      assert (Hs' : StronglySorted N.lt (map tx_nonce (map (fun x => it_tx (at_item x)) att))).
+      { rewrite Hpre. now apply sorted_firstn. }
+      rewrite map_map in Hs'. rewrite map_map. now apply sorted_map_filter.
+  Qed.
+End OrderFull.
+
+(* ------------------------------------------------------------------------- *)
+(* 10. builder trace = importer trace, attempt by attempt                          *)
+
+Section Importer.
+  Variables S Rc H Q : Type.
+  Variable meta : tx -> txmeta.
+  Variable pre_check : S -> tx -> pre_res.
+  Variable exec : S -> tx -> exec_res S Rc.
+  Variable cfg : bconfig.
+  Variable pre_exec : S -> S.
+  Variable post_exec : S -> list Rc -> option (S * Q).
+  Variable finalize : S -> S.
+  Variables (root_of bal_hash_of : S -> H) (receipts_root bloom_of : list Rc -> H) (requests_hash : Q -> H).
+  Variable ccfg : FeesImpl.chain_config.
+  Variable parent_hdr : FeesImpl.header.
+  Variable parent_cancun : bool.
+  Variable head_time : Z.
+  Hypothesis WF : well_formed meta exec cfg.
+
+  Notation benv := (benv S Rc).
+  Notation commit_transaction := (commit_transaction S Rc meta pre_check exec cfg).
+  Notation apply_message := (apply_message S Rc meta pre_check exec cfg).
+  Notation process_txs := (process_txs S Rc meta pre_check exec cfg).
+  Notation chain := (chain S Rc meta pre_check exec cfg).
+  Notation step_env := (step_env S Rc meta pre_check exec cfg).
+  Notation fill_phase := (fill_phase S Rc meta pre_check exec cfg).
+  Notation fill_transactions := (fill_transactions S Rc meta pre_check exec cfg).
+
+  Lemma phase_hist sigs env pp pb env' tr st :
+    fill_phase sigs env pp pb = Ok (env', tr, st) -> exists h, map snd h = tr /\ chain env h env'.
+  Proof.
+    unfold Build.fill_phase. intros E.
+    destruct (nonempty pp || nonempty pb). 2:{ injection E as <- <- _. exists []. split; reflexivity. }
+    destruct (new_by_price_and_nonce pp (c_basefee cfg)) as [plain| |]; cbn [bind] in E; try discriminate.
+    destruct (new_by_price_and_nonce pb (c_basefee cfg)) as [blob| |]; cbn [bind] in E; try discriminate.
+    destruct (Build.commit_transactions S Rc meta pre_check exec cfg sigs env plain blob)
+      as [[[[[env2 p2] b2] tr2] st2]| |] eqn:El; cbn [bind] in E; try discriminate.
+    injection E as <- <- _. unfold Build.commit_transactions in El. eapply loop_hist; eauto.
+  Qed.
+
+  Lemma fill_hist sigs1 sigs2 prio env pp pb env' tr1 tr2 :
+    fill_transactions sigs1 sigs2 prio env pp pb = Ok (env', tr1, tr2) ->
+    exists h, map snd h = tr1 ++ tr2 /\ chain env h env'.
+  Proof.
+    unfold Build.fill_transactions. intros E.
+    destruct (split_prio prio pp) as [pp1 np]. destruct (split_prio prio pb) as [pb1 nb].
+    destruct (fill_phase sigs1 env pp1 pb1) as [[[env1 t1] st1]| |] eqn:E1; cbn [bind] in E; try discriminate.
+    destruct (phase_hist _ _ _ _ _ _ _ E1) as (h1 & Hm1 & Hc1).
+    destruct (interrupted st1). { injection E as <- <- <-. exists h1. rewrite app_nil_r. auto. }
+    destruct (fill_phase sigs2 env1 np nb) as [[[env2 t2] st2]| |] eqn:E2; cbn [bind] in E; try discriminate.
+    destruct (phase_hist _ _ _ _ _ _ _ E2) as (h2 & Hm2 & Hc2).
+    injection E as <- <- <-. exists (h1 ++ h2). rewrite map_app, Hm1, Hm2. split; [reflexivity|].
+    eapply chain_app; eauto.
+  Qed.
+
+  Variable parent : S.
+  Let gp0 := NewGasPool (c_gaslimit cfg).
+  Let s0 := pre_exec parent.
+
+  Notation entry_ok := (entry_ok S Rc meta pre_check exec cfg pre_exec parent).
+
+  Definition inv (e : benv) : Prop := sim S Rc meta pre_check exec cfg s0 e /\ lim S Rc meta cfg e.
+
+  Lemma inv_step e t e1 err reached : inv e -> commit_transaction e t = Ok (e1, err, reached) -> inv e1.
+  Proof.
+    destruct WF as (W1 & W2 & W3 & W4 & W5).
+    intros (Hs & Hl) Hc. apply (commit_transaction_spec S Rc meta pre_check exec cfg) in Hc. split.
+    - eapply committed_sim; eauto.
+    - eapply committed_lim; eauto.
+  Qed.
+
+  Lemma chain_entries h : forall e e', chain e h e' -> inv e -> Forall entry_ok h.
+  Proof.
+    induction h as [|[e0 a] h IH]; intros e e' Hc Hi; [constructor|].
+    cbn in Hc. destruct Hc as (-> & e1 & Hs & Hc).
+    assert (Hi1 : inv e1).
+    { destruct Hs as [(-> & _)|(err & reached & Hct & _)]; [exact Hi|eapply inv_step; eauto]. }
+    constructor; [|eapply IH; eauto].
+    destruct Hi as ((Hp & Hu) & (_ & _ & Hbg & Hsum)). unfold Build.entry_ok. cbn [fst snd]. unfold gp0, s0 in *.
+    split; [exact Hp|]. split; [now symmetry|]. split; [exact Hbg|]. split; [exact Hu|].
+    intros Hinc. unfold is_included in Hinc.
+    destruct Hs as [(_ & _ & Hw)|(err & reached & Hct & _ & Hw)].
+    { destruct Hw as [Hw|[Hw|[Hw|Hw]]]; rewrite Hw in Hinc; discriminate. }
+    rewrite Hw in Hinc. destruct reached; [|discriminate]. destruct err; [discriminate|].
+    apply (commit_transaction_spec S Rc meta pre_check exec cfg) in Hct.
+    assert (Hap : exists ex rc, applied S Rc meta pre_check exec cfg e (it_tx (at_item a)) ex (inl rc)).
+    { inversion Hct; subst; eauto. }
+    destruct Hap as (ex & rc & Hap). inversion Hap; subst.
+    do 3 eexists. split; [eassumption|]. rewrite process_txs_snoc, Hp.
+    match goal with Hx : Build.apply_message _ _ _ _ _ _ _ _ _ = _ |- _ => rewrite Hx end. reflexivity.
+  Qed.
+
+  (* builder_trace_is_importer_trace *)
+  Theorem builder_trace_is_importer_trace sigs1 sigs2 prio size0 pp pb b env tr1 tr2 :
+    generate_work S Rc H Q meta pre_check exec cfg pre_exec post_exec finalize root_of bal_hash_of
+                  receipts_root bloom_of requests_hash ccfg parent_hdr parent_cancun head_time
+                  sigs1 sigs2 prio parent size0 pp pb = GwBlock S Rc H b env tr1 tr2 ->
+    exists h, map snd h = tr1 ++ tr2 /\
+              chain (make_env S Rc cfg pre_exec parent size0) h env /\
+              b_txs H b = included (tr1 ++ tr2) /\
+              Forall entry_ok h.
+  Proof.
+    unfold Build.generate_work. intros E.
+    destruct (Build.prepare_excess cfg ccfg parent_hdr parent_cancun head_time) as [ex|]; [|discriminate].
+    destruct (fill_transactions sigs1 sigs2 prio (make_env S Rc cfg pre_exec parent size0) pp pb)
+      as [[[env' t1] t2]| |] eqn:Ef; try discriminate.
+    destruct (assemble S Rc H Q cfg post_exec finalize root_of bal_hash_of receipts_root bloom_of requests_hash
+                       head_time env' ex) as [b'|] eqn:Ea; [|discriminate].
+    injection E as <- <- <- <-.
+    destruct (fill_hist _ _ _ _ _ _ _ _ _ Ef) as (h & Hm & Hc).
+    exists h. split; [exact Hm|]. split; [exact Hc|]. split.
+    - destruct (chain_included S Rc meta pre_check exec cfg _ _ _ Hc) as (Ht & _). rewrite Hm in Ht.
+      unfold assemble in Ea. destruct (post_exec (e_state env') (e_receipts env')) as [[s1 q]|]; [|discriminate].
+      injection Ea as <-. cbn [b_txs]. rewrite Ht. reflexivity.
+    - eapply chain_entries; [exact Hc|].
+      destruct WF as (W1 & W2 & W3 & W4 & W5).
+      split.
+      + split; [reflexivity|]. cbn. destruct (used_new (c_gaslimit cfg)) as (g & Eg). eauto.
+      + unfold lim, make_env. cbn. split; [|unfold P64; lia].
+        unfold pool_ok. split; [|reflexivity].
+        destruct (c_amsterdam cfg); [apply new_pool_ams|apply new_pool_legacy]; unfold P63, P64; lia.
+  Qed.
+End Importer.
+
+(* ------------------------------------------------------------------------- *)
+(* 11. the same, position by position over the block's transaction list              *)
+
+Section Positions.
+  Variables S Rc : Type.
+  Variable meta : tx -> txmeta.
+  Variable pre_check : S -> tx -> pre_res.
+  Variable exec : S -> tx -> exec_res S Rc.
+  Variable cfg : bconfig.
+  Notation chain := (chain S Rc meta pre_check exec cfg).
+
+  (* every transaction the run added to the block was added by one attempt of the history,
+     made from an environment holding exactly the transactions before it *)
+  Lemma chain_position h : forall e0 e', chain e0 h e' ->
+    forall pre t post, e_txs e' = e_txs e0 ++ pre ++ t :: post ->
+    exists e a, In (e, a) h /\ is_included a = true /\ it_tx (at_item a) = t /\
+                e_txs e = e_txs e0 ++ pre.
+  Proof.
+    induction h as [|[e a] h IH]; intros e0 e' Hc pre t post Et; cbn in Hc.
+    - subst. exfalso. apply (f_equal (@length tx)) in Et. rewrite !app_length in Et. cbn in Et. lia.
+    - destruct Hc as (-> & e1 & Hs & Hc).
+      destruct (step_env_spec S Rc meta pre_check exec cfg _ _ _ Hs) as (H1 & _).
+      destruct (chain_included S Rc meta pre_check exec cfg _ _ _ Hc) as (H2 & _).
+      destruct (is_included a) eqn:Ei.
+      + assert (H2' := H2). rewrite H1, <- app_assoc in H2. rewrite H2 in Et. apply app_inv_head in Et.
+        cbn [app] in Et.
+        destruct pre as [|x pre]; cbn [app] in Et.
+        * injection Et as Ea _. exists e0, a. rewrite app_nil_r. repeat split; auto. now left.
+        * injection Et as <- Et.
+          assert (Et' : e_txs e' = e_txs e1 ++ pre ++ t :: post).
+          { rewrite H2'. f_equal. exact Et. }
+          destruct (IH _ _ Hc _ _ _ Et') as (e & a' & Hin & Hi & Ht & Hp).
+          exists e, a'. repeat split; auto; [now right|]. rewrite Hp, H1, <- app_assoc. reflexivity.
+      + rewrite app_nil_r in H1. rewrite <- H1 in Et.
+        destruct (IH _ _ Hc _ _ _ Et) as (e & a' & Hin & Hi & Ht & Hp).
+        exists e, a'. repeat split; auto; [now right|]. now rewrite Hp, H1.
+  Qed.
+End Positions.
+
+(* importer_replays_each_included_tx: for EVERY position of the built block's transaction list,
+   the importer, having processed the transactions before it, is in exactly the (gas pool,
+   state, receipts, blob-gas counter) the builder was in when it attempted this transaction, and
+   the evaluation of the per-transaction function at this position is the very evaluation the
+   builder made: same result pool / state / receipt *)
+Theorem importer_replays_each_included_tx :
+  forall (S Rc H Q : Type) meta pre_check exec cfg pre_exec post_exec finalize
+         (root_of bal_hash_of : S -> H) (receipts_root bloom_of : list Rc -> H) (requests_hash : Q -> H)
+         ccfg parent_hdr parent_cancun head_time,
+  well_formed meta exec cfg ->
+  forall parent sigs1 sigs2 prio size0 pp pb b env tr1 tr2,
+  generate_work S Rc H Q meta pre_check exec cfg pre_exec post_exec finalize root_of bal_hash_of
+                receipts_root bloom_of requests_hash ccfg parent_hdr parent_cancun head_time
+                sigs1 sigs2 prio parent size0 pp pb
+    = GwBlock S Rc H b env tr1 tr2 ->
+  forall pre t post, b_txs H b = pre ++ t :: post ->
+  exists (e : benv S Rc) gp' s' rc,
+    (* the builder's environment when it attempted t: holding exactly the transactions before t *)
+    e_txs e = pre /\ e_blobgasused e = sum_blobgas meta pre /\
+    (* the importer before this position is in that environment's pool, state, receipts *)
+    process_txs S Rc meta pre_check exec cfg (NewGasPool (c_gaslimit cfg)) (pre_exec parent) [] pre
+      = Some (e_pool e, e_state e, e_receipts e) /\
+    (* one evaluation, shared *)
+    apply_message S Rc meta pre_check exec cfg (e_pool e) (e_state e) t = (gp', inl (s', rc)) /\
+    process_txs S Rc meta pre_check exec cfg (NewGasPool (c_gaslimit cfg)) (pre_exec parent) [] (pre ++ [t])
+      = Some (gp', s', e_receipts e ++ [rc]).
+Proof.
+  intros S Rc H Q meta pre_check exec cfg pre_exec post_exec finalize root_of bal_hash_of receipts_root
+         bloom_of requests_hash ccfg parent_hdr parent_cancun head_time WF parent sigs1 sigs2 prio size0
+         pp pb b env tr1 tr2 E pre t post Eb.
+  destruct (builder_trace_is_importer_trace S Rc H Q meta pre_check exec cfg pre_exec post_exec finalize
+              root_of bal_hash_of receipts_root bloom_of requests_hash ccfg parent_hdr parent_cancun head_time
+              WF parent _ _ _ _ _ _ _ _ _ _ E) as (h & Hm & Hc & Htx & Hok).
+  destruct (chain_included S Rc meta pre_check exec cfg _ _ _ Hc) as (Hfin & _).
+  rewrite Hm, <- Htx, Eb in Hfin. cbn [make_env e_txs app] in Hfin.
+  destruct (chain_position S Rc meta pre_check exec cfg h _ _ Hc pre t post Hfin) as (e & a & Hin & Hi & Ht & Hp).
+  cbn [make_env e_txs app] in Hp.
+  rewrite Forall_forall in Hok. specialize (Hok _ Hin). unfold entry_ok in Hok. cbn [fst snd] in Hok.
+  destruct Hok as (H1 & H2 & _ & _ & H5). destruct (H5 Hi) as (gp' & s' & rc & Ha & Hs).
+  rewrite Ht in *. rewrite Hp in *. exists e, gp', s', rc. auto 8.
+Qed.
